@@ -192,6 +192,31 @@ def check_cdata(prog: Program, rep: Report) -> None:
     rep.unit("cdata_attributes", n)
 
 
+def check_pickle_hooks_faithful(prog: Program, rep: Report, rule: str) -> None:
+    """
+    The objects that travel in pickled form (in a dump, or through the pipes of the multi-process mediator) come back as they
+    were: an attribute that `__getstate__` removes and `__setstate__` re-creates must not be one that can hold different values
+    in the live object (re-creating it with ONE fixed value loses which one it was -- e.g. a strategy method that `__init__`
+    chooses from its arguments).  cffi handles are covered by R19.1 / R19.2 (rebuilt from the constructor arguments).
+    """
+    for ci in prog.classes:
+        if not ci.file.startswith("jellyfysh/base/"):
+            continue
+        gs, ss = ci.methods.get("__getstate__"), ci.methods.get("__setstate__")
+        if gs is None or ss is None:
+            continue
+        removed = {k for k in _removed_keys(gs, consts=lambda e: const_value(prog, ci, e)) if isinstance(k, str)}
+        for attr in sorted(removed):
+            values = {norm(a.value) for m in ci.methods.values() if m is not ss for a in ast.walk(m) if isinstance(a, ast.Assign)
+                      and any(self_attr(t) == attr for t in a.targets)}
+            restored = [a for a in ast.walk(ss) if isinstance(a, ast.Assign) and any(self_attr(t) == attr for t in a.targets)]
+            from_state = any(any(isinstance(x, ast.Name) and x.id in param_names(ss) for x in ast.walk(a.value)) for a in restored)
+            ok = len(values) <= 1 or from_state or len(restored) > 1
+            rep.ob(rule, ok, Loc(ci.file, ss.lineno, f"{ci.name}.__setstate__"), f"{ci.name}.{attr}: live values {sorted(values)[:3]}",
+                   f"`{attr}` is dropped when a {ci.name} is pickled and re-created with one fixed value, although the live object can hold "
+                   f"{len(values)} different ones ({sorted(values)[:3]}): an object sent through a pipe or written to a dump comes back changed")
+
+
 def check_payload(prog: Program, rep: Report) -> None:
     dh = prog.class_named("DumpingOutputHandler")
     w = dh.methods.get("write")
@@ -212,8 +237,11 @@ def check_payload(prog: Program, rep: Report) -> None:
             if len(unpack) == 1:
                 return unpack[0].targets[0]
         return target
+    restore_fn, restore_at, returned_alias = main, None, None
     loads = load_sites(main)
     helper_loads = [(f, l) for f in res.functions.values() if f is not main for l in load_sites(f)]
+    if len(loads) == 1:
+        helper_loads = []       # the loading helper was read in place by the normal form: main holds the site
     if len(dumps) != 1 or len(loads) + len(helper_loads) != 1:
         raise AnalysisError("dill.dump / dill.load sites not unique")
     # the dumped object may be bound to a local before the dump, the loaded one before it is unpacked
@@ -244,6 +272,12 @@ def check_payload(prog: Program, rep: Report) -> None:
                     for j, i in enumerate(order_):
                         elts[i] = outer.elts[j]
                     target = ast.Tuple(elts=elts, ctx=ast.Store())
+            elif isinstance(rv, ast.Name) and isinstance(inner, (ast.Tuple, ast.List)) and rv.id in [norm(x) for x in inner.elts] \
+                    and isinstance(calls[0].targets[0], ast.Name):
+                # the helper restores the modules and the generator itself and hands back one item (the mediator): the restoring
+                # statements are read in the helper, at the position of its call; the returned item is known in main by the call's target
+                target = inner
+                restore_fn, restore_at, returned_alias = hf, calls[0].lineno, (calls[0].targets[0].id, rv.id)
         if target is None:
             target = ast.Name(id="?", ctx=ast.Store())
     loc = Loc(res.file, loads[0].lineno, "resume.main")
@@ -269,15 +303,21 @@ def check_payload(prog: Program, rep: Report) -> None:
         if isinstance(n, ast.Call):
             f = norm(n.func)
             for nm in names:
-                if f == f"{nm}.run":
+                alias = returned_alias[0] if returned_alias is not None and returned_alias[1] == nm else nm
+                if f == f"{alias}.run":
                     uses[nm] = "mediator"
                     run_line = n.lineno
+    for n in ast.walk(restore_fn):
+        if isinstance(n, ast.Call):
+            f = norm(n.func)
+            at_line = restore_at if restore_at is not None else n.lineno
+            for nm in names:
                 if f == "random.setstate" and n.args and norm(n.args[0]) == nm:
                     uses[nm] = "random"
-                    order.append((n.lineno, "random"))
+                    order.append((at_line, "random"))
                 if f.endswith(".__dict__.update") and n.args and norm(n.args[0]) == f"{nm}.__dict__":
                     uses[nm] = f.split(".")[0]
-                    order.append((n.lineno, f.split(".")[0]))
+                    order.append((at_line, f.split(".")[0]))
     for i, (e, nm) in enumerate(zip(payload.elts, names)):
         rd, ru = role_dump(e), uses.get(nm)
         rep.ob("R19.3-payload-order", rd == ru, loc, f"item {i}: dumped `{norm(e)}` restored as `{ru}` via `{nm}`",
@@ -377,7 +417,22 @@ def check_rng(prog: Program, rep: Report) -> None:
                 iters.append(n.value)
         for it in iters:
             key = (ci.name if ci else "", fn.name)
-            rep.ob("R19.4-set-iteration", key in SET_ITERATION_OK, Loc(mi.file, it.lineno, f"{key[0]}.{fn.name}".strip(".")), it,
+            confirmed = key in SET_ITERATION_OK
+            if not confirmed:
+                # the same iteration moved into a helper: confirmed when the iterated set comes from a confirmed producer, or when
+                # the helper is only called from confirmed sites of the same module
+                src_ = it
+                if isinstance(src_, ast.Name):
+                    defs_ = [a.value for a in ast.walk(fn) if isinstance(a, ast.Assign) and len(a.targets) == 1
+                             and isinstance(a.targets[0], ast.Name) and a.targets[0].id == src_.id]
+                    src_ = defs_[0] if len(defs_) == 1 else src_
+                if isinstance(src_, ast.Call) and ("", norm(src_.func).split(".")[-1]) in SET_ITERATION_OK:
+                    confirmed = True
+                else:
+                    callers = [(c2.name if c2 else "", f2.name) for m2, c2, f2 in prog.functions() if m2 is mi and f2 is not fn
+                               and any(isinstance(x, ast.Call) and norm(x.func).split(".")[-1] == fn.name for x in ast.walk(f2))]
+                    confirmed = bool(callers) and all(k_ in SET_ITERATION_OK for k_ in callers)
+            rep.ob("R19.4-set-iteration", confirmed, Loc(mi.file, it.lineno, f"{key[0]}.{fn.name}".strip(".")), it,
                    "iteration over a set: for strings or identity-hashed objects the order differs between the dumping and "
                    "the resuming process (hash randomisation / addresses) and can reach the commit path; this site is not "
                    "among the sites confirmed as order-insensitive or int-keyed")
@@ -430,12 +485,25 @@ def check_dumping_pure(prog: Program, rep: Report) -> None:
             ok = bool(rets) and all(isinstance(r.value, (ast.List, ast.Tuple)) and not r.value.elts for r in rets)
             rep.ob("R19.6-dumping-empty-out-state", ok, Loc(ref.file, ref.fn.lineno, ref.qual), "returns []",
                    "the out-state of a dumping event must be empty (nothing is inserted into the global state)")
+    # ... nor does writing the dump itself: a draw between taking random.getstate() and continuing the run (a random file suffix, a
+    # shuffled order) puts the continuing run ahead of the state stored in the dump
+    doh = prog.class_named("DumpingOutputHandler")
+    if doh is not None:
+        from ..handlers import FnRef, closure
+        for ref in closure(prog, doh, [FnRef(*prog.resolve_method(doh, "write"))]) if prog.resolve_method(doh, "write") else []:
+            draws = [n for n in ast.walk(ref.fn) if isinstance(n, ast.Call) and norm(n.func).startswith("random.")
+                     and norm(n.func) not in ("random.getstate",)]
+            rep.ob("R19.6-dump-write-no-rng", not draws, Loc(ref.file, draws[0].lineno if draws else ref.fn.lineno, ref.qual),
+                   draws[0] if draws else f"{ref.qual}: reads the generator state only",
+                   "writing the dump consumes random numbers: the run that continues after the dump and the run resumed from it use "
+                   "different streams")
     med = prog.class_named("Mediator")
     fn = med.methods.get("mediate_dumping_event_handler")
     if fn is None:
         rep.ob("R19.6-mediate-dumping", None, Loc(med.file, med.node.lineno, med.name), "mediate_dumping_event_handler", "not found")
     else:
-        body = body_without_docstring(fn)
+        from ..normalize import canon as _canon
+        body = body_without_docstring(_canon(prog, med, fn))       # a delegated write is still this method's write
         ok = len(body) == 1 and isinstance(body[0], ast.Expr) and isinstance(body[0].value, ast.Call) \
             and norm(body[0].value.func).endswith("_input_output_handler.write") and len(body[0].value.args) == 2 \
             and norm(body[0].value.args[1]) == "self" and norm(body[0].value.args[0]).endswith(".output_handler")
@@ -463,13 +531,17 @@ def analyse(src: Source) -> List[Report]:
         _getstate_tables(prog, ci, rep)
     check_cdata(prog, rep)
     check_payload(prog, rep)
+    check_pickle_hooks_faithful(prog, rep, "R19.1-pickle-hooks-faithful")
     check_rng(prog, rep)
     check_globals(prog, rep)
     check_dumping_pure(prog, rep)
     # scheduler contents including the validity of trashed entries survive the pickle (rules shared with C06)
     from ..cfront import CUnit
-    from .c06 import HEAP_C, check_heap_scheduler
+    from .c06 import HEAP_C, check_c_comparisons, check_heap_scheduler
     check_heap_scheduler(src, rep, CUnit(src, HEAP_C))
+    # the dump stores the heap in array order and the resume re-inserts in that order: the array is reproduced only because every
+    # comparison of the sift loops is the strict order (an entry never passes an equal one)
+    check_c_comparisons(CUnit(src, HEAP_C), rep)
     cfgs = load_all(prog)
     cache: Dict[str, HandlerFacts] = {}
     n_dump = 0
